@@ -19,6 +19,7 @@ import (
 	"time"
 
 	"github.com/caddyserver/caddy/v2"
+	"github.com/caddyserver/caddy/v2/modules/caddyhttp/reverseproxy"
 	"github.com/caddyserver/certmagic"
 )
 
@@ -454,8 +455,13 @@ func RunCase(ops []Op, enforce bool) []StepObs {
 		for k := 1; k < NAddr; k++ {
 			o.Writers[k] = ws[writerKey(nonce, k)]
 		}
+		hosts := reverseproxy.VerifHostsSnapshot()
 		for k := 0; k < NAddr; k++ {
-			o.MPool[k], _ = mpool.References(poolKey(nonce, k))
+			if k >= 4 {
+				o.MPool[k] = hosts[dial(nonce, k)].Refs // reverseproxy's hosts pool
+			} else {
+				o.MPool[k], _ = mpool.References(poolKey(nonce, k))
+			}
 		}
 		out = append(out, o)
 		if enforce && !orderMatches(op, attempted, o) {
@@ -489,7 +495,16 @@ func visible(a App, prov bool) bool {
 		return true
 	}
 	if prov {
-		return len(a.Mods) > 0 && a.Mods[0].Fault != 1 && a.Mods[0].Fault != 2
+		// the HTTP app's provisioning is seen through the first probe handler that gets provisioned
+		for _, m := range a.Mods {
+			if !m.IsRp() && m.Fault != 1 && m.Fault != 2 {
+				return true
+			}
+			if m.Fault != 0 {
+				return false
+			}
+		}
+		return false
 	}
 	return len(a.Listen) > 0
 }
@@ -628,4 +643,35 @@ func Attempted(op Op, running *Cfg) *Cfg {
 		return &c
 	}
 	return nil
+}
+
+func Order(names []int, apps []App) []App { return order(names, apps) }
+
+var reHTTPListening = regexp.MustCompile(`http app module: start: listening on (?:tcp/)?(\S+?): `)
+
+// F2Leak: the sockets finding F2 (C01) accounts for after this operation: the HTTP app's own
+// Start failed at its k-th listener; listeners 0..k-1 stay bound with the rejected config's tag.
+func F2Leak(attempted *Cfg, o StepObs) map[int][]int {
+	out := map[int][]int{}
+	if o.Res != "err:start" || attempted == nil {
+		return out
+	}
+	m := reHTTPListening.FindStringSubmatch(o.Err)
+	if m == nil {
+		return out
+	}
+	for _, a := range attempted.Apps {
+		if !a.IsHTTP() {
+			continue
+		}
+		for k, ad := range a.Listen {
+			if addrs[ad] == m[1] {
+				for _, before := range a.Listen[:k] {
+					out[before] = append(out[before], a.Tag)
+				}
+				break
+			}
+		}
+	}
+	return out
 }
